@@ -199,6 +199,17 @@ def defects():
                                    'units': None, 'route': 'plain', '_expect_list': True}
         return True
 
+    @d('same-named-channels-in-one-frame', True)
+    def _(spec, R):
+        # two channels that differ only in their copy number cannot both be looked up by name in the data
+        ch = channels_of_first_frame(spec)
+        if len(ch) < 2:
+            return False
+        ch[-1]['name'] = ch[-2 if len(ch) > 2 else 0]['name'] if len(ch) > 2 else ch[0]['name']
+        ch[-1]['dataset_name'] = None
+        (ch[-2] if len(ch) > 2 else ch[0])['dataset_name'] = None
+        return True
+
     @d('dimension-inconsistent-with-data', True)
     def _(spec, R):
         ch = channels_of_first_frame(spec)[-1]
